@@ -89,14 +89,31 @@ def handle (args : List String) (impl : String) : R Ans :=
             (DnaStr.sliceOf d a.toNat! b.toNat!).bind fun s => iterKmers (ofSlice c d (if r == "1" then s else s.rc))
         | ["lmer", n] => ((Lmer.fromSlice n.toNat! seq).bind Lmer.rc).bind fun x => iterKmers (ofLmer c x)
         | _ => none
+      -- equality of values: x.rc().rc() == x, and x == x.rc() iff the sequence is its own reverse complement
+      let b3 := fun (b : Bool) => if b then 3 else 0
+      let (inv, pal) : Nat × Nat := match cont.splitOn "." with
+        | ["string"] => (match DnaStr.fromBytes seq with
+            | some d => (match DnaStr.rc d with
+              | some r => (b3 (decide ((DnaStr.rc r) = some d)), b3 (decide (r = d)))
+              | none => (9, 9))
+            | none => (9, 9))
+        | ["slice", a, b, r] => (match (DnaStr.fromBytes seq).bind fun d => (DnaStr.sliceOf d a.toNat! b.toNat!).map fun s => (d, if r == "1" then s.rc else s) with
+            | some (d, s) => (b3 ((DnaStr.Slice.eq d s.rc.rc d s).getD false), b3 ((DnaStr.Slice.eq d s d s.rc).getD false))
+            | none => (9, 9))
+        | ["lmer", n] => (match Lmer.fromSlice n.toNat! seq with
+            | some x => (match Lmer.rc x with
+              | some r => (b3 (decide (Lmer.rc r = some x)), b3 (decide (r = x)))
+              | none => (9, 9))
+            | none => (9, 9))
+        | _ => (9, 9)
       let model := match rcBases, rcrc, kmersRc with
-        | some a, some b, some ks => s!"rc={showNats a} rcrc={showNats b} kmers={showKs c ks}"
+        | some a, some b, some ks => s!"rc={showNats a} rcrc={showNats b} kmers={showKs c ks} inv={inv} pal={pal}"
         | _, _, _ => "panic"
       let r := KSpec.rc l
       let ws := KSpec.windows c.K l
       -- the i-th k-mer of the reverse complement is the reverse complement of the (n-K-i)-th k-mer
       let expectK := if ws.isEmpty then "-" else ",".intercalate (ws.reverse.map fun w => expK (KSpec.rc w))
-      let expect := s!"rc={showNats r} rcrc={showNats l} kmers={expectK}"
+      let expect := s!"rc={showNats r} rcrc={showNats l} kmers={expectK} inv=3 pal={if l == r then 3 else 0}"
       pure { model, verdict := if impl == expect then "ok" else s!"FAIL:rc-not-coherent(expected {expect})" }
     | _, _ => throw "bad-op"
   | _ => throw "bad-request"
